@@ -157,6 +157,11 @@ pub fn run_case(id: u32, t: &[u8]) -> String {
         44 => both!(Unt, t, canon),
         45 => both!(Flat, t, canon),
         46 => both!(Vec<f64>, t, |v: &Vec<f64>| v.iter().map(|x| format!("F{}", x.to_bits())).collect::<Vec<_>>().join(",")),
+        // several byte buffers in one document (a byte string may hold invalid UTF-8; the reader keeps track of where the next
+        // invalid byte of the input stands): compared with serde_json
+        47 => both!((serde_bytes::ByteBuf, String, serde_bytes::ByteBuf), t, canon),
+        48 => both!(Vec<serde_bytes::ByteBuf>, t, canon),
+        49 => both!(BTreeMap<String, serde_bytes::ByteBuf>, t, canon),
         _ => "bad-type".into(),
     }
 }
@@ -532,6 +537,47 @@ pub fn gen_tagged(seed: u64, thorough: bool, tag: &str) {
     for &id in IDS {
         for s in shapes {
             out.line(&format!("{} {} {}", tag, id, hex(s.as_bytes())));
+        }
+    }
+    // several byte strings with invalid UTF-8 in one document (raw bytes, `from_slice` only), with text strings between them
+    if tag == "c04" {
+        let bad: &[&[u8]] = &[b"\xff", b"\xfe\xfd", b"a\x80", b"\xc3", b"\xf0\x9f\x98", b"ok", b"", b"\xc3\xa9", b"\\n\xff"];
+        for (i, a) in bad.iter().enumerate() {
+            for (j, b) in bad.iter().enumerate() {
+                if !thorough && (i * 9 + j) % 2 == 1 && i > 1 && j > 1 {
+                    continue;
+                }
+                let q = |x: &[u8]| {
+                    let mut v = b"\"".to_vec();
+                    v.extend_from_slice(x);
+                    v.push(b'"');
+                    v
+                };
+                for text in [&b"t"[..], b"", b"caf\xc3\xa9", b"\xff"] {
+                    let mut d = b"[".to_vec();
+                    d.extend(q(a));
+                    d.push(b',');
+                    d.extend(q(text));
+                    d.push(b',');
+                    d.extend(q(b));
+                    d.push(b']');
+                    out.line(&format!("{} 47 {}", tag, hex(&d)));
+                }
+                let mut d = b"[".to_vec();
+                d.extend(q(a));
+                d.push(b',');
+                d.extend(q(b));
+                d.extend_from_slice(b" , ");
+                d.extend(q(a));
+                d.push(b']');
+                out.line(&format!("{} 48 {}", tag, hex(&d)));
+                let mut d = b"{\"k1\":".to_vec();
+                d.extend(q(a));
+                d.extend_from_slice(b",\"k2\":");
+                d.extend(q(b));
+                d.extend_from_slice(b",\"k3\":\"z\"}");
+                out.line(&format!("{} 49 {}", tag, hex(&d)));
+            }
         }
     }
     // ignored members (unknown fields of the derived structs 23 and 31, IgnoredAny) holding long numbers whose dot / exponent
